@@ -8,8 +8,8 @@ THEOREMS = ['C15.step_appends_at_most_one', 'C15.entries_are_contributing_elemen
 
 STD = [  # (keyword, values by VM kind)
     ('Modality', ['MR']), ('SeriesDescription', ['desc a', 'b']), ('ProtocolName', ['p1']), ('SequenceName', ['sq']),
-    ('ImageType', [['ORIGINAL', 'PRIMARY'], ['A', 'B', 'C']]), ('EchoTime', ['10.5', '20']), ('RepetitionTime', ['2000']),
-    ('EchoNumbers', ['1', ['1', '2']]), ('InstanceNumber', ['7']), ('AcquisitionNumber', ['3']), ('ImagePositionPatient', [['1.5', '2', '-3']]),
+    ('ImageType', [['ORIGINAL', 'PRIMARY'], ['A', 'B', 'C']]), ('EchoTime', ['10.5', '20', '0.0']), ('RepetitionTime', ['2000']),
+    ('EchoNumbers', ['1', ['1', '2']]), ('InstanceNumber', ['7', '0']), ('AcquisitionNumber', ['3']), ('ImagePositionPatient', [['1.5', '2', '-3']]),
     ('PixelSpacing', [['0.5', '0.5']]), ('Rows', [4]), ('Columns', [5]), ('BitsStored', [12]), ('SmallestImagePixelValue', [0]),
     ('WindowCenter', ['40', ['40', '50']]), ('PatientName', ['Doe^John']), ('PatientAge', ['030Y']), ('StudyDate', ['20200101']),
     ('AcquisitionTime', ['120000.5']), ('AcquisitionDateTime', ['20200101120000']), ('SOPInstanceUID', ['1.2.3.4']),
@@ -24,8 +24,10 @@ STD = [  # (keyword, values by VM kind)
 def make_csa2(tags):
     """a minimal valid Siemens CSA2 ('SV10') header: what the default CSA translators can parse"""
     out = [b'SV10', b'\x04\x03\x02\x01', struct.pack('<2I', len(tags), 77)]
-    for name, vr, items in tags:
-        out.append(struct.pack('<64si4s3i', name.encode('ascii'), len(items), vr.encode('ascii'), 0, len(items), 77))
+    for tag in tags:
+        name, vr, items = tag[:3]
+        vm = tag[3] if len(tag) > 3 else len(items)      # the declared multiplicity need not be the number of items present
+        out.append(struct.pack('<64si4s3i', name.encode('ascii'), vm, vr.encode('ascii'), 0, len(items), 77))
         for item in items:
             data = item.encode('ascii')
             out.append(struct.pack('<4i', len(data), len(data), 77, len(data)))
@@ -93,7 +95,8 @@ def gen_dataset(r, depth=0):
                 if (0x0029, slot) not in ds:
                     ds.add_new((0x0029, slot), 'LO', 'SIEMENS CSA HEADER')
                     ds.add_new((0x0029, (slot << 8) | 0x10), 'OB',
-                               make_csa2([('EchoLinePosition', 'IS', ['64']), ('ProtocolSliceNumber', 'IS', ['3'])]))
+                               make_csa2([('EchoLinePosition', 'IS', ['64']), ('ProtocolSliceNumber', 'IS', ['3']),
+                                          ('MosaicRefAcqTimes', 'FD', ['2.5'], 0), ('ICE_Dims', 'LO', ['X_1'], 3)]))
             except Exception:
                 pass
         # standard elements of a binary VR: kept as text when every byte is printable ASCII, dropped otherwise
@@ -278,10 +281,11 @@ def main(pid, tier):
                 k = e.keyword
                 if k in res and e.value is not None and not isinstance(e.value, pydicom.sequence.Sequence):
                     v = res[k]
-                    if e.VR == 'DS' and not (isinstance(v, float) or (isinstance(v, list) and all(isinstance(x, float) for x in v))):
-                        fails.append(('convert', 'DS element %s extracted as %r' % (k, v)))
-                    if e.VR == 'IS' and not ((isinstance(v, int) and not isinstance(v, bool)) or (isinstance(v, list) and all(isinstance(x, int) for x in v))):
-                        fails.append(('convert', 'IS element %s extracted as %r' % (k, v)))
+                    # plain float / int: pydicom's DSfloat / IS are subclasses of them and must not survive (zero included)
+                    if e.VR == 'DS' and not (type(v) is float or (isinstance(v, list) and all(type(x) is float for x in v))):
+                        fails.append(('convert', 'DS element %s extracted as %r (%s)' % (k, v, type(v).__name__)))
+                    if e.VR == 'IS' and not (type(v) is int or (isinstance(v, list) and all(type(x) is int for x in v))):
+                        fails.append(('convert', 'IS element %s extracted as %r (%s)' % (k, v, type(v).__name__)))
                     if e.VM > 1 and not isinstance(v, list):
                         fails.append(('convert', 'multi-valued element %s extracted as %r' % (k, v)))
                     if e.VR == 'DS' and e.VM == 1 and isinstance(v, float) and v != float(e.value):
@@ -296,6 +300,11 @@ def main(pid, tier):
                     if e.tag.group == 0x0029 and e.tag.elem in (0x10, 0x20) and e.value == 'SIEMENS CSA HEADER':
                         de = ds.get((0x0029, (e.tag.elem << 8) | 0x10))
                         if de is not None and isinstance(de.value, bytes) and de.value[:4] == b'SV10':
+                            # a tag holding one item is that item, whatever multiplicity the header declares for it
+                            if 'CsaImage.MosaicRefAcqTimes' in res and (res.get('CsaImage.MosaicRefAcqTimes') != 2.5 or res.get('CsaImage.ICE_Dims') != 'X_1'):
+                                fails.append(('csa_single_item', 'CSA tags with one item and declared multiplicity 0 / 3: CsaImage.MosaicRefAcqTimes = %r, '
+                                              'CsaImage.ICE_Dims = %r, the items are 2.5 and X_1' % (
+                                                  res.get('CsaImage.MosaicRefAcqTimes'), res.get('CsaImage.ICE_Dims'))))
                             if res.get('CsaImage.EchoLinePosition') != 64 or res.get('CsaImage.ProtocolSliceNumber') != 3:
                                 fails.append(('translator_routing', 'CSA image header under the creator in slot %#x: CsaImage.EchoLinePosition = %r, '
                                               'CsaImage.ProtocolSliceNumber = %r, the header says 64 and 3' % (
